@@ -11,7 +11,7 @@ TKeySeq == Tr[1].keyseq
 TVals == {Tr[1].vals[i] : i \in 1..Len(Tr[1].vals)}
 TContracts == {Tr[1].contracts[i] : i \in 1..Len(Tr[1].contracts)}
 TActs == {"CachePut", "CacheDelete", "CacheCommit", "CacheReset", "OvlPut", "OvlDelete", "OvlCommit",
-          "Migrate", "Destroy", "Deploy", "DeployRefused", "ContractPut"}
+          "Migrate", "Destroy", "Deploy", "DeployRefused", "ContractPut", "MarkDestroyed", "PutRefused"}
 TDisk == {Tr[1].disk}
 TPrefixes == Tr[1].prefixes
 
@@ -53,5 +53,8 @@ TNext == \/ TReset
          \/ IsEvent("Deploy") /\ Deploy(Ev.c) /\ ObsOK
          \/ IsEvent("DeployRefused") /\ DeployRefused(Ev.c) /\ Ev.res = "refused"
                                      /\ Ev.readC = flatC' /\ ToSet(Ev.deployed) = deployed' /\ ToSet(Ev.destroyed) = destroyed'
+         \/ IsEvent("MarkDestroyed") /\ MarkDestroyed(Ev.c) /\ ObsOK
+         \/ IsEvent("PutRefused") /\ PutRefused(Ev.c, Ev.k) /\ Ev.res = "refused"
+                                  /\ Ev.readC = flatC' /\ ToSet(Ev.deployed) = deployed' /\ ToSet(Ev.destroyed) = destroyed'
 TSpec == TInit /\ [][TNext]_tvars
 =============================================================================
